@@ -6,7 +6,19 @@
 // The oracle and the window checks are the ones of /verif/kani/io.rs (data-free window recording)
 // plus real byte movement.
 use std::io::ErrorKind;
-use vm_memory::bitmap::BitmapSlice;
+use vm_memory::bitmap::{Bitmap, BitmapSlice, WithBitmapSlice};
+use std::cell::RefCell;
+
+/// a recording dirty bitmap (public Bitmap / BitmapSlice traits): logs every (offset, len) it is told
+#[derive(Debug, Clone)]
+struct Rec { base: usize, log: *const RefCell<Vec<(usize, usize)>> }
+impl<'a> WithBitmapSlice<'a> for Rec { type S = Rec; }
+impl BitmapSlice for Rec {}
+impl Bitmap for Rec {
+    fn mark_dirty(&self, offset: usize, len: usize) { unsafe { (*self.log).borrow_mut().push((self.base.wrapping_add(offset), len)); } }
+    fn dirty_at(&self, _offset: usize) -> bool { false }
+    fn slice_at(&self, offset: usize) -> Rec { Rec { base: self.base.wrapping_add(offset), log: self.log } }
+}
 use vm_memory::{Bytes, ReadVolatile, VolatileMemory, VolatileMemoryError, VolatileSlice, WriteVolatile};
 
 #[derive(Clone, Copy, Debug, PartialEq)]
@@ -79,7 +91,9 @@ fn one(script: &[Ent], addr: usize, count: usize, exact: bool, write_dir: bool) 
     for (i, b) in src.iter_mut().enumerate() { *b = 0x10 + i as u8; }
     let mut st = Script { script, i: 0, done: 0, base, addr, count: eff, src, sink: Vec::new(), bad: None };
     let (want, outcome) = oracle(script, eff, exact);
-    let s = VolatileSlice::from(&mut mem[..]);
+    let marks: RefCell<Vec<(usize, usize)>> = RefCell::new(Vec::new());
+    // SAFETY: `mem` outlives the slice; the recording bitmap outlives it too
+    let s = unsafe { VolatileSlice::with_bitmap(mem.as_mut_ptr(), 8, Rec { base: 0, log: &marks as *const _ }, None) };
     let res: Result<usize, VolatileMemoryError> = match (exact, write_dir) {
         (true, false) => s.read_exact_volatile_from(addr, &mut st, count).map(|_| count),
         (false, false) => s.read_volatile_from(addr, &mut st, count),
@@ -90,6 +104,17 @@ fn one(script: &[Ent], addr: usize, count: usize, exact: bool, write_dir: bool) 
         return if res.is_err() && st.i == 0 { Ok(()) } else { Err("exact transfer that does not fit must fail without touching the stream".into()) };
     }
     if let Some(b) = st.bad.take() { return Err(b); }
+    // dirty marks: exactly the bytes the stream stored (the Script streams never fail part-way through a
+    // call, so nothing beyond them may be reported), and nothing at all when guest memory is only read
+    {
+        let mut dirty = [false; 8 + 16];
+        for (o, l) in marks.borrow().iter() { for k in 0..*l { let i = o.wrapping_add(k); if i < dirty.len() { dirty[i] = true; } else { return Err(format!("[marks] dirty mark ({}, {}) outside the slice", o, l)); } } }
+        for i in 0..8 {
+            let stored = !write_dir && i >= addr && i < addr + st.done;
+            if stored && !dirty[i] { return Err(format!("[marks-missing] byte {} was stored from the stream but is not reported dirty", i)); }
+            if !stored && dirty[i] { return Err(format!("[marks-extra] byte {} is reported dirty although the transfer did not store it ({} bytes stored at {})", i, if write_dir { 0 } else { st.done }, addr)); }
+        }
+    }
     if st.done != want { return Err(format!("transferred {} bytes, script delivers {}", st.done, want)); }
     // memory: consumed bytes stored at consecutive addresses / drained bytes are the guest bytes, rest untouched
     let now: [u8; 8] = { let mut t = [0u8; 8]; s.copy_to(&mut t[..]); t };
@@ -128,7 +153,7 @@ fn enumerate_scripts() {
             if let Err(m) = one(script, addr, count, exact, wd) {
                 // a zero-count transfer that misbehaves is (also) C18's subject: keep one of those even when the list is full
                 let z = if count == 0 { "[zero-count] " } else { "" };
-                if fails.len() < 5 || (count == 0 && !fails.iter().any(|f| f.starts_with("[zero-count]"))) { fails.push(format!("{}script={:?} addr={} count={} exact={} write_dir={}: {}", z, script, addr, count, exact, wd, m)); }
+                if fails.len() < 5 || (count == 0 && !fails.iter().any(|f| f.starts_with("[zero-count]"))) || (m.contains("[marks") && !fails.iter().any(|f| f.contains("[marks"))) { fails.push(format!("{}script={:?} addr={} count={} exact={} write_dir={}: {}", z, script, addr, count, exact, wd, m)); }
             }
         } } } }
         if script.len() < maxk {
@@ -140,7 +165,12 @@ fn enumerate_scripts() {
     println!("DISTINCT {}", distinct);
     // C13's exact variants ("succeed precisely when std's read_exact / write_all would", "move the same
     // bytes") are decided by the same enumeration
-    for f in &fails { println!("FAIL: C14 {}", f); println!("FAIL: C13 {}", f); if f.starts_with("[zero-count]") { println!("FAIL: C18 {}", f); } }
+    for f in &fails {
+        if !f.contains("[marks") { println!("FAIL: C14 {}", f); println!("FAIL: C13 {}", f); }
+        if f.starts_with("[zero-count]") { println!("FAIL: C18 {}", f); }
+        if f.contains("[marks-missing]") { println!("FAIL: C05 {}", f); }
+        if f.contains("[marks-extra]") || f.contains("[marks]") { println!("FAIL: C16 {}", f); }
+    }
     assert!(fails.is_empty());
 }
 
